@@ -10,7 +10,12 @@ pub const SIG: [u8; 12] = [
 #[derive(Copy, Clone, PartialEq, Eq, Debug)]
 pub enum RefV2 {
     /// Accepted: (command nibble, family nibble, transport nibble, declared length)
-    Ok { cmd: u8, fam: u8, proto: u8, len: usize },
+    Ok {
+        cmd: u8,
+        fam: u8,
+        proto: u8,
+        len: usize,
+    },
     /// fewer than 16 bytes, all of them a prefix of signature + anything
     Incomplete(usize),
     BadSignature,
